@@ -50,7 +50,7 @@ ASSUMPTIONS = [
     "uniformity is the only statistical oracle: selection count of a group over 4000 draws ~ "
     "Binomial(4000*G, 1/G); acceptance |count-4000| <= 6*sqrt(4000*(1-1/G)); exact binomial "
     "two-sided tail <= 2.3e-9 per group for G=2..10, <= 14 groups per case => <= 3.2e-8 per case, "
-    "<= 4e-7 per quick run (12 cases), <= 8e-6 per thorough run (240 cases). The generator seed is "
+    "<= 4e-7 per quick run (12 cases), <= 7e-6 per thorough run (200 cases). The generator seed is "
     "part of the case and the runner's Hypothesis seed is fixed by VERIF_SEED, so for a given "
     "VERIF_SEED the verdict is deterministic and a replay reproduces it bit for bit (no flaking)",
     "group labels are ints or strs of one type per descriptor (np.unique must be able to sort them)",
@@ -359,7 +359,7 @@ SUBCHECKS = [
     Enumeration('outcomes_both', enumerate_both, check_all_outcomes, classify_all_outcomes,
                 doc='all pairs of group structures of <=3 RDMs and 2-3 conditions x all outcomes '
                     '(up to 27 x 27) of bootstrap_sample', tiers=('thorough',)),
-    SubCheck('uniformity', uniform_case(), check_uniform, classify_uniform, quick=12, thorough=240,
+    SubCheck('uniformity', uniform_case(), check_uniform, classify_uniform, quick=12, thorough=200,
              doc='real numpy generator seeded from the case, 4000 draws, per-group selection '
                  'count within 6 sigma of 4000'),
 ]
